@@ -49,11 +49,11 @@ Definition eval10 (c : case10) : verdict :=
       | OutOfFuel, IHang => true
       | _, _ => false
       end in
-    (* range of theorems C10_thresholds_i64 / _f64; beyond: correspondence only *)
+    (* range of theorems C10_thresholds_i64 (2^63) / _f64 (2^53); beyond: correspondence only *)
     let in_contract :=
       sides_ok
       && match c_fw c with
-         | I64 => sumZ (c_ws c) <? 2 ^ 46
+         | I64 => sumZ (c_ws c) <? 2 ^ 63
          | F64 k => Nat.leb k 1000 && (sumZ (c_ws c) <? 2 ^ 53)
          end in
     let prop :=
@@ -63,7 +63,18 @@ Definition eval10 (c : case10) : verdict :=
         | _ => false                 (* panic or hang inside the contract *)
         end
       else true in
-    let cls := match c_impl c with IOk _ => 0 | IErr _ _ _ => 2 | IPanic => 3 | IHang => 4 end%N in
+    (* informational class 6: an i64 total of 2^46 or more on which the output is outside the
+       LITERAL "1% + 1 unit" (it is inside 1%*(1+2^-40) + 1 unit, which is what is proved and judged) *)
+    let strict_fails :=
+      match c_fw c, c_impl c with
+      | I64, IOk p =>
+        in_contract && (2 ^ 46 <=? sumZ (c_ws c))
+        && negb (check_C10 bal_unit_b (start_axis (c_ds c)) (c_ds c) (c_ws c) (c_k c) p)
+      | _, _ => false
+      end in
+    let cls := match c_impl c with
+               | IOk _ => if strict_fails then 6 else 0
+               | IErr _ _ _ => 2 | IPanic => 3 | IHang => 4 end%N in
     {| corr_ok := corr; prop_ok := prop; cls := cls |}
   else
     (* arbitrary f64 fractions: the sums the code forms are rounded and their association
